@@ -200,6 +200,7 @@ fn build_inputs(tier: &str, r: &mut Rng) -> Vec<Input> {
             }
         }
     }
+    structured_inputs(tier, r, &mut inputs);
     inputs
 }
 
